@@ -1,3 +1,4 @@
+#![forbid(unsafe_code)]
 //! pgmon - runtime monitors for petgraph (see /verif/DESIGN.md).
 //! usage: pgmon <PROP> --seed N --from A --to B [--thorough] [--build NAME] [--hashes FILE]
 //!              [--samples K] [--case IDX (replay one case verbosely)] [--small] [--budget-s S]
